@@ -21,6 +21,11 @@ def tool_error(msg):
     sys.exit(2)
 
 
+# worker binaries: bin/ for quick, bin-thorough/ for thorough, so that a long thorough run is not disturbed by rebuilds of
+# the quick tier (set by ./run; VERIF_BINDIR overrides)
+BIN = f"{V}/{os.environ.get('VERIF_BINDIR', 'bin')}"
+
+
 def build(extra_overlay=None):
     env = dict(GOENV)
     args = ['bash', f'{V}/lib/build.sh']
@@ -32,7 +37,7 @@ def build(extra_overlay=None):
 
 
 def vp(*args, check=True, capture=True):
-    r = subprocess.run([f'{V}/bin/vp', *args], capture_output=capture, text=True, env=GOENV)
+    r = subprocess.run([f'{BIN}/vp', *args], capture_output=capture, text=True, env=GOENV)
     if check and r.returncode != 0:
         tool_error(f'vp {" ".join(args)} failed: {r.stderr[-2000:]}')
     return r
@@ -98,7 +103,7 @@ def run_shards(sub, args, nshards=None, timeout=7200, max_deaths=6):
             for attempt in range(200):
                 outp = f'{d}/out{i}.{attempt}.jsonl'
                 try:
-                    r = subprocess.run([f'{V}/bin/vp', sub, *args, '-shard', f'{i}/{n}', '-out', outp, '-from', str(frm)],
+                    r = subprocess.run([f'{BIN}/vp', sub, *args, '-shard', f'{i}/{n}', '-out', outp, '-from', str(frm)],
                                        stdout=subprocess.DEVNULL, stderr=subprocess.PIPE, text=True, env=GOENV, timeout=timeout)
                     err, rc = r.stderr, r.returncode
                 except subprocess.TimeoutExpired as e:
